@@ -102,6 +102,9 @@ func printResult(res *HarnessResult) {
 		if v.Stack != "" {
 			fmt.Print(v.Stack)
 		}
+		for _, o := range v.Obs {
+			fmt.Printf("      obs %s = %d\n", o.Label, o.Val)
+		}
 	}
 	for i, s := range res.Inconclusive {
 		if i > 10 {
